@@ -10,6 +10,13 @@ use std::path::Path;
 #[path = "./mod_test.rs"]
 mod mod_test;
 
+fn is_same_path(source: &Path, target: &Path) -> bool {
+    match (source.canonicalize(), target.canonicalize()) {
+        (Ok(source_full), Ok(target_full)) => source_full == target_full,
+        _ => false,
+    }
+}
+
 #[derive(Clone)]
 pub(crate) struct CommandImpl {
     package: String,
@@ -52,7 +59,10 @@ impl Command for CommandImpl {
                     !target_ends_with_separator && target_path.extension().is_some()
                 };
 
-                if source_file && target_file {
+                if source_file && target_file && is_same_path(source_path, target_path) {
+                    // moving a file onto itself leaves it as is (move_file would delete it)
+                    CommandResult::Continue(Some("true".to_string()))
+                } else if source_file && target_file {
                     match create_parent(&target_path) {
                         Ok(_) => {
                             let options = fs_extra::file::CopyOptions::new().overwrite(true);
